@@ -21,6 +21,8 @@ from vcheck.core import Task, Violation
 ID = 'C10'
 LEVEL = 'exploration'
 BUDGET = {'quick': 75, 'thorough': 480}
+# deterministic sub-checks repeated in a `python -O` child (core.optimized_child)
+OPT_SUBS = ('stb/format-tokens', 'stb/grid', 'qemu/table')
 RULE = ('string_to_bytes: (a) grid = 3 signs x 44 magnitudes (integers, '
         'decimals, leading dot, leading zeros, 30 digits, malformed) x 33 '
         'prefixes (the 22 of the statement, none, 10 foreign) x 8 units (b, '
